@@ -12,6 +12,7 @@ class RequestStreamRequester(StreamHandler, DefaultPublisherSubscription, Reques
     def __init__(self, socket: RSocket, payload: Payload):
         super().__init__(socket)
         self.payload = payload
+        self._terminated = False
 
     def setup(self):
         pass
@@ -21,14 +22,24 @@ class RequestStreamRequester(StreamHandler, DefaultPublisherSubscription, Reques
         self._send_stream_request(self.payload)
 
     def cancel(self):
+        if self._terminated:
+            return  # the stream has ended: nothing to cancel, and nothing may be sent on it any more
+
+        self._terminated = True
         self.send_cancel()
         self._finish_stream()
 
     def request(self, n: int):
+        if self._terminated:
+            return
+
         self.send_request_n(n)
 
     def frame_received(self, frame: Frame):
         if isinstance(frame, PayloadFrame):
+            if frame.flags_complete:
+                self._terminated = True  # before the subscriber is told: it may ask for more in on_next
+
             if frame.flags_next:
                 self._subscriber.on_next(payload_from_frame(frame),
                                          is_complete=frame.flags_complete)
@@ -38,6 +49,7 @@ class RequestStreamRequester(StreamHandler, DefaultPublisherSubscription, Reques
             if frame.flags_complete:
                 self._finish_stream()
         elif isinstance(frame, ErrorFrame):
+            self._terminated = True
             self._subscriber.on_error(error_frame_to_exception(frame))
             self._finish_stream()
 
